@@ -23,6 +23,21 @@ class SkipConv2d(nn.Conv2d):
     """Conv2d subclass whose class name a skip pattern can hit."""
 
 
+class AdapterLinear(nn.Linear):
+    """Linear that owns an (empty) container of sub-modules: it has a child,
+    so it is not a leaf of the module tree and K-FAC must leave it alone."""
+
+    def __init__(self, *a: Any, **kw: Any) -> None:
+        super().__init__(*a, **kw)
+        self.adapters = nn.ModuleList()
+
+
+class AdapterConv2d(nn.Conv2d):
+    def __init__(self, *a: Any, **kw: Any) -> None:
+        super().__init__(*a, **kw)
+        self.adapters = nn.Sequential()
+
+
 class MeanOverTokens(nn.Module):
     def forward(self, x: torch.Tensor) -> torch.Tensor:
         return x.mean(dim=1)
@@ -50,12 +65,14 @@ def _freeze(m: nn.Module, how: str) -> None:
 def _make_layer(s: dict[str, Any]) -> nn.Module:
     t = s['t']
     if t == 'linear':
-        cls = SkipLinear if s.get('skipcls') else nn.Linear
+        cls = SkipLinear if s.get('skipcls') else (
+            AdapterLinear if s.get('adapter') else nn.Linear)
         m: nn.Module = cls(s['in'], s['out'], bias=s['bias'])
         _freeze(m, s.get('frozen', 'none'))
         return m
     if t == 'conv':
-        cls = SkipConv2d if s.get('skipcls') else nn.Conv2d
+        cls = SkipConv2d if s.get('skipcls') else (
+            AdapterConv2d if s.get('adapter') else nn.Conv2d)
         m = cls(s['cin'], s['cout'], tuple(s['k']), stride=tuple(s['s']),
                 padding=tuple(s['p']), bias=s['bias'])
         _freeze(m, s.get('frozen', 'none'))
@@ -203,6 +220,8 @@ def gen_model_spec(rng: random.Random, *, allow_conv: bool = True,
             s['frozen'] = rng.choice(['all', 'bias']) if s['bias'] else 'all'
         elif zoo and rng.random() < 0.08:
             s['skipcls'] = True
+        elif zoo and rng.random() < 0.07:
+            s['adapter'] = True
         return s
 
     if kind == 'conv':
